@@ -20,6 +20,8 @@ import (
 	"crypto/sha256"
 	"encoding/hex"
 	"fmt"
+	"os"
+	"runtime/pprof"
 	"sort"
 	"strconv"
 	"strings"
@@ -515,8 +517,6 @@ func (c *world) classifyDiffs(a, b wk.Dump, edited, reimported *ingest.MutableOv
 			}
 			api := map[string]string{"findvalue": "FindValue", "findvalues": "FindValues"}[base]
 			lookups[routeName(route)+"|"+arg] = append(lookups[routeName(route)+"|"+arg], api)
-		case "tokens":
-			out["tokens-differ:after-"+info.last()] = true
 		}
 	}
 	for k, apis := range lookups {
@@ -645,6 +645,9 @@ func (c *world) checkState(r *kit.Result, w *ingest.MutableOverlayWorld, editedD
 		got := c.dump(fresh, probes)
 		diffs := wk.Diff(editedDump, got, true)
 		if len(diffs) == 0 {
+			if tokensOf(w) != tokensOf(fresh) {
+				r.AddOutcome("not-demanded:Tokens()-differ-while-every-other-answer-is-equal")
+			}
 			continue
 		}
 		outcome = "diff"
@@ -916,6 +919,11 @@ func runCollections(c *world, r *kit.Result, kt keyType, seqs [][]int, reps int)
 }
 
 func main() {
+	if p := os.Getenv("C18_PROF"); p != "" {
+		f, _ := os.Create(p)
+		pprof.StartCPUProfile(f)
+		defer pprof.StopCPUProfile()
+	}
 	kit.Main(&kit.Check{
 		ID: "C18", Level: "model_checking",
 		Rule: "Part V: every value of the tag-string menu (numbers, lat-lngs, feature IDs, ';' lists, YAML-special scalars, quotes, colons, leading '#', newline, empty) stored in every place of a fixed list (AddTag with plain/searchable key on each base and overlay feature type, overriding existing tags, tags of newly added features of each type, relation roles, collection keys/values). " +
@@ -927,8 +935,13 @@ func main() {
 			"the order of documents in the exported file depends on Go map iteration order inside the repository code; it is sampled by repeating the export, not enumerated",
 			"histories consist of successful edits (a rejected AddFeature/AddTag ends the history: what a rejected edit leaves behind is C13's subject)",
 			"tag values passed to AddTag/AddFeature are string expressions (the statement's 'tag string values')",
+			"World.Tokens() (the tokens known to the search index, order undefined) is observed but not demanded equal: the edited world's index keeps tokens of replaced features and removed tags although no search returns them; counted as outcome 'not-demanded:Tokens()-differ...'",
+			"CollectionFeature.IsSortedByKey() is a representation hint, not demanded equal (a collection added in memory is unsorted, the same collection read from a file with ascending keys is sorted); the lookups it switches (FindValue/FindValues) are demanded equal",
+			"collection keys and values are compared by kind (string / integer / float / feature id) and value, not by the concrete Go type carrying them",
 		},
-		QuickDeadline: 240e9, ThoroughDeadline: 1500e9, CaseTimeout: 600e9, Chunk: 1,
+		QuickDeadline: 400e9, ThoroughDeadline: 2400e9, CaseTimeout: 900e9, Chunk: 1,
+		// one case runs on one goroutine; many Ps per worker only add GC coordination cost
+		WorkerEnv: []string{"GOMAXPROCS=2", "GOGC=300"},
 		Build: func(tier string) (kit.Space, string) {
 			depth, reps, maxLen := 2, 2, 4
 			schemes := []int{1}
